@@ -1,10 +1,12 @@
 """
 C06 — The client never swallows or mistypes a server-reported error.
 
-Model   : lean/JRV/Model/Client.lean (checkForErrors, proxyResult, multicallGet)
-Theorems: lean/JRV/Properties/C06.lean
-Tie     : extracted range/raised classes (tools/extractors/client.py) + differential correspondence of
-          check_for_errors, ServerProxy._request and MultiCall result access on the same reply objects.
+Model   : lean/JRV/Model/Client.lean (checkForErrors, proxyResult, proxyNotify, multicallGet, multicallIter/List/Unpack)
+Theorems: lean/JRV/Properties/C06.lean (+ C06Gen.lean for the extracted facts)
+Tie     : extracted range/raised classes/call-site shapes (tools/extractors/client.py) + differential correspondence of
+          check_for_errors, ServerProxy._request, ServerProxy._request_notify and every way of reading a MultiCall
+          result (index, iteration, list(), unpacking) on the same reply objects, under a proxy with use_jsonclass
+          off and on.
 Monitor : written from the property statement (independent of the model).
 """
 import itertools
@@ -18,7 +20,9 @@ REQUIRED_THEOREMS = [
     "C06_error_raises", "C06_error_class", "C06_coded", "C06_message", "C06_range_int", "C06_range_nonnumeric",
     "C06_raw", "C06_single_entry", "C06_result_unchanged", "C06_multicall", "C06_appdata",
     "C06_batch_single_error", "C06_batch_array",
-    "C06_gen_protoRange", "C06_gen_errorClasses",
+    "C06_proxy_error", "C06_notify_error", "C06_notify_none", "C06_iter_first_error", "C06_iter_all", "C06_list",
+    "C06_unpack_error", "C06_full_statement_false",
+    "C06_gen_protoRange", "C06_gen_errorClasses", "C06_gen_clientCallSites",
 ]
 
 LO, HI = -32700, -32000
@@ -120,6 +124,7 @@ def random_case(rng):
 
 
 def in_domain(reply):
+    """1.0- and 2.0-form envelopes (the quantifier of the property; `envelopeOk` in the theorems)."""
     if not isinstance(reply, dict):
         return False
     if "jsonrpc" in reply:
@@ -129,40 +134,80 @@ def in_domain(reply):
     return True
 
 
-def truthy(v):
-    return bool(v)
+def has_error(reply):
+    """"a reply whose error member is non-empty": bound to a truthy value."""
+    return "error" in reply and bool(reply["error"])
 
 
-def monitor(reply, kind, val, where):
-    """The property statement, checked directly on the real outcome.  Returns a message or None."""
+def is_clean(reply):
+    """"a reply with a null or absent error and a result member" — nothing is said (and nothing demanded here)
+    about falsy non-null error values (0, False, "", [], {})."""
+    return reply.get("error") is None and "result" in reply
+
+
+def same(val, exp):
+    return type(val) is type(exp) and json.dumps(val, sort_keys=True) == json.dumps(exp, sort_keys=True)
+
+
+def monitor_raised(err, val, where):
+    """The exception `val` raised for the non-empty error value `err`, against the statement."""
+    if not isinstance(val, jsonrpclib_ProtocolError()):
+        return "%s raised %s (not a ProtocolError) for error %r" % (where, type(val).__name__, err)
+    if isinstance(err, dict) and "code" in err:
+        code = err["code"]
+        numeric = isinstance(code, (int, float))
+        in_range = numeric and LO <= code <= HI
+        msg = err["message"] if "message" in err else err.get("trace", "<no error message>")
+        if in_range:
+            if type(val).__name__ != "ProtocolError" or val.args[0] != (code, msg):
+                return "%s: in-range code %r raised %s%r" % (where, code, type(val).__name__, val.args)
+        else:
+            if type(val).__name__ != "AppError" or val.args[0] != (code, msg, err.get("data")):
+                return "%s: code %r outside the range raised %s%r" % (where, code, type(val).__name__, val.args)
+            if val.data() != err.get("data"):
+                return "%s: AppError.data() = %r, expected %r" % (where, val.data(), err.get("data"))
+    return None
+
+
+def monitor(reply, kind, val, where, returns_result=True):
+    """The property statement, checked directly on the real outcome.  Returns a message or None.
+    `returns_result` is False for the access paths that hand out no result by design (check_for_errors returns
+    its argument, a notification call returns None): only "does not raise" is demanded of them."""
     if not in_domain(reply):
         return None
-    err = reply.get("error")
-    if "error" in reply and truthy(err):
+    if has_error(reply):
         if kind != "err":
-            return "%s returned %r for a reply with error %r" % (where, val, err)
-        if not isinstance(val, jsonrpclib_ProtocolError()):
-            return "%s raised %s (not a ProtocolError) for error %r" % (where, type(val).__name__, err)
-        if isinstance(err, dict) and "code" in err:
-            code = err["code"]
-            numeric = isinstance(code, (int, float))
-            in_range = numeric and LO <= code <= HI
-            msg = err["message"] if "message" in err else err.get("trace", "<no error message>")
-            if in_range:
-                if type(val).__name__ != "ProtocolError" or val.args[0] != (code, msg):
-                    return "%s: in-range code %r raised %s%r" % (where, code, type(val).__name__, val.args)
-            else:
-                if type(val).__name__ != "AppError" or val.args[0] != (code, msg, err.get("data")):
-                    return "%s: code %r outside the range raised %s%r" % (where, code, type(val).__name__, val.args)
-                if val.data() != err.get("data"):
-                    return "%s: AppError.data() = %r, expected %r" % (where, val.data(), err.get("data"))
-        return None
-    if "result" in reply and where != "check_for_errors":
+            return "%s returned %r for a reply with error %r" % (where, val, reply["error"])
+        return monitor_raised(reply["error"], val, where)
+    if is_clean(reply):
         if kind != "ok":
             return "%s raised %s for a reply with result %r and no error" % (where, type(val).__name__, reply["result"])
-        exp = reply["result"]
-        if type(val) is not type(exp) or json.dumps(val, sort_keys=True) != json.dumps(exp, sort_keys=True):
-            return "%s returned %r instead of %r" % (where, val, exp)
+        if returns_result and not same(val, reply["result"]):
+            return "%s returned %r instead of %r" % (where, val, reply["result"])
+    return None
+
+
+def monitor_iteration(batch, got, exc, where):
+    """Reading a MultiCall result by iteration.  `got` = the values handed out, `exc` = the exception that ended
+    the iteration or None.  Judged when every entry up to the first error entry is in the domain and clean."""
+    if not all(isinstance(r, dict) and in_domain(r) for r in batch):
+        return None
+    first = next((i for i, r in enumerate(batch) if has_error(r)), None)
+    upto = batch if first is None else batch[:first]
+    if not all(is_clean(r) for r in upto):
+        return None
+    exp = [r["result"] for r in upto]
+    if first is None:
+        if exc is not None:
+            return "%s raised %s over a batch reply without error entries" % (where, type(exc).__name__)
+    else:
+        if exc is None:
+            return "%s returned %r although entry %d carries the error %r" % (where, got, first, batch[first]["error"])
+        m = monitor_raised(batch[first]["error"], exc, where)
+        if m:
+            return m
+    if got is not None and (len(got) != len(exp) or not all(same(a, b) for a, b in zip(got, exp))):
+        return "%s handed out %r, expected the results %r in order" % (where, got, exp)
     return None
 
 
@@ -170,12 +215,163 @@ def jsonrpclib_ProtocolError():
     return impl.jsonrpclib.jsonrpc.ProtocolError
 
 
+# ----------------------------------------------------------------------------------------------------------------
+# access paths of the real client
+
+
+def _mk_unpackers(nmax):
+    out = {}
+    for n in range(1, nmax + 1):
+        names = ", ".join("a%d" % i for i in range(n))
+        ns = {}
+        exec("def u(it):\n    %s%s = it\n    return [%s]\n" % (names, "," if n == 1 else "", names), ns)
+        out[n] = ns["u"]
+    return out
+
+
+UNPACK = _mk_unpackers(8)
+
+
+def iterate(results):
+    got = []
+    try:
+        for r in results:
+            got.append(r)
+    except Exception as ex:  # noqa: BLE001
+        return got, ex
+    return got, None
+
+
+def plain(v):
+    """No `__jsonclass__` key anywhere: the payloads the use_jsonclass=True proxy is exercised with."""
+    if isinstance(v, dict):
+        return "__jsonclass__" not in v and all(plain(x) for x in v.values())
+    if isinstance(v, list):
+        return all(plain(x) for x in v)
+    return True
+
+
+class Client(object):
+    """One configuration of the real client over a loopback transport."""
+
+    def __init__(self, tag, cfg):
+        self.tag = tag
+        self.cfg = cfg
+        self.J = impl.jsonrpclib.jsonrpc
+
+    def proxy(self, text):
+        tr = impl.LoopTransport(lambda body, t=text: t)
+        return self.J.ServerProxy("http://localhost/", transport=tr, config=self.cfg)
+
+    def call(self, text):
+        return impl.outcome(self.proxy(text).some.method, 1, 2)
+
+    def notify(self, text):
+        return impl.outcome(self.proxy(text)._notify.some.method, 1, 2)
+
+    def multicall(self, text, njobs):
+        mc = self.J.MultiCall(self.proxy(text), config=self.cfg)
+        for _i in range(max(1, njobs)):
+            mc.m()
+        return impl.outcome(mc)
+
+
+def clients():
+    C = impl.jsonrpclib.config.Config
+    return [Client("jc-off", C(version=2.0, use_jsonclass=False)), Client("jc-on", C(version=2.0, use_jsonclass=True))]
+
+
+def canon_iter(got, exc):
+    try:
+        g = "ok " + pyval.enc(got, canon=True)
+    except pyval.Unencodable:
+        g = "ok ?"
+    return g + " | " + ("done" if exc is None else impl.canon_outcome("err", exc))
+
+
+def canon_model_iter(line):
+    return " | ".join(impl.canon_model_line(part) for part in line.split(" | "))
+
+
+def drive_reply(ctx, cl, reply, text, enc, lines, impl_out, with_cfe):
+    """One reply object through check_for_errors, a proxy call and a notification call."""
+    via = lambda w: "%s [%s]" % (w, cl.tag)  # noqa: E731
+    k = v = None
+    if with_cfe:
+        k, v = impl.outcome(cl.J.check_for_errors, json.loads(text))
+        m = monitor(reply, k, v, "check_for_errors", returns_result=False)
+        if m:
+            ctx.violate({"reply": reply, "via": "check_for_errors"}, m, key="check_for_errors:" + m[:60])
+        lines.append("cfe " + enc)
+        impl_out.append(impl.canon_outcome(k, v))
+    k2, v2 = cl.call(text)
+    m = monitor(reply, k2, v2, via("ServerProxy call"))
+    if m:
+        ctx.violate({"reply": reply, "via": "ServerProxy", "config": cl.tag}, m, key="proxy:" + m[:60])
+    lines.append("proxy " + enc)
+    impl_out.append(impl.canon_outcome(k2, v2))
+    k5, v5 = cl.notify(text)
+    m = monitor(reply, k5, v5, via("ServerProxy._notify call"), returns_result=False)
+    if m is None and k5 == "ok" and v5 is not None and in_domain(reply):
+        m = "%s returned %r (a notification call returns nothing)" % (via("ServerProxy._notify call"), v5)
+    if m:
+        ctx.violate({"reply": reply, "via": "ServerProxy._notify", "config": cl.tag}, m, key="notify:" + m[:60])
+    lines.append("notify " + enc)
+    impl_out.append(impl.canon_outcome(k5, v5))
+    return k, v
+
+
+def drive_batch(ctx, cl, batch, lines, impl_out, positions=None):
+    """An array reply read by index, by iteration, by list() and by unpacking."""
+    btext = json.dumps(batch)
+    benc = pyval.enc(batch)
+    k, results = cl.multicall(btext, len(batch))
+    if k != "ok":
+        ctx.violate({"batch": batch, "via": "MultiCall()", "config": cl.tag},
+                    "the batch call raised %s over an array reply" % type(results).__name__, key="mc-call-raises")
+        return
+    tag = cl.tag
+    for pos in (range(len(batch)) if positions is None else positions):
+        k3, v3 = impl.outcome(lambda: results[pos])
+        if isinstance(batch[pos], dict):
+            m = monitor(batch[pos], k3, v3, "MultiCall[%d] [%s]" % (pos, tag))
+            if m:
+                ctx.violate({"batch": batch, "via": "MultiCall-index", "position": pos, "config": tag}, m,
+                            key="multicall:" + m[:60])
+        lines.append("mcget %d %s" % (pos, benc))
+        impl_out.append(impl.canon_outcome(k3, v3))
+    got, exc = iterate(results)
+    m = monitor_iteration(batch, got, exc, "for r in MultiCall() [%s]" % tag)
+    if m:
+        ctx.violate({"batch": batch, "via": "MultiCall-iteration", "config": tag}, m, key="mciter:" + m[:60])
+    lines.append("mciter " + benc)
+    impl_out.append(canon_iter(got, exc))
+    k6, v6 = impl.outcome(lambda: list(results))
+    m = monitor_iteration(batch, v6 if k6 == "ok" else None, None if k6 == "ok" else v6, "list(MultiCall()) [%s]" % tag)
+    if m:
+        ctx.violate({"batch": batch, "via": "MultiCall-list", "config": tag}, m, key="mclist:" + m[:60])
+    lines.append("mclist " + benc)
+    impl_out.append(impl.canon_outcome(k6, v6))
+    n = len(batch)
+    if 1 <= n <= len(UNPACK):
+        k7, v7 = impl.outcome(UNPACK[n], results)
+        m = monitor_iteration(batch, v7 if k7 == "ok" else None, None if k7 == "ok" else v7,
+                              "a1..a%d = MultiCall() [%s]" % (n, tag))
+        if m:
+            ctx.violate({"batch": batch, "via": "MultiCall-unpack", "config": tag}, m, key="mcunpack:" + m[:60])
+        lines.append("mcunpack %d %s" % (n, benc))
+        impl_out.append(impl.canon_outcome(k7, v7))
+
+
 def run(ctx):
-    J = impl.jsonrpclib.jsonrpc
-    cfg = impl.jsonrpclib.config.Config(version=2.0, use_jsonclass=False)
+    cls = clients()
+    off = cls[0]
+    J = off.J
     ctx.rule = ("systematic cross product of envelope form x error alphabet x code boundary values x message/trace/data "
                 "variants x falsy errors x result values, plus random replies; each reply goes through check_for_errors, "
-                "ServerProxy._request (loopback transport) and MultiCall result access at a random batch position; "
+                "ServerProxy._request and ServerProxy._request_notify (loopback transport; proxies with use_jsonclass off and on), "
+                "sits at a random position of an array reply read by index, iteration, list() and unpacking, and is mixed "
+                "with other drawn replies (several error entries) in a second array reply; "
                 "distinct_nontrivial = distinct (kind, envelope, error shape, code class, outcome class) among replies that raise")
     cases = []
     sysc = list(systematic_cases()) + list(odd_cases())
@@ -194,55 +390,44 @@ def run(ctx):
                 cases.append(("raw", env, envelope(env, 1, error=e)))
     for _ in range(ctx.budget(600, 20000)):
         cases.append(random_case(ctx.rng))
+    pool = [c[2] for c in cases if isinstance(c[2], dict)]
 
     lines = []
     impl_out = []
-    for kind, env, reply in cases:
+    falsy_nonnull = 0
+    jc_on = 0
+    for idx, (kind, env, reply) in enumerate(cases):
         text = json.dumps(reply)
         enc = pyval.enc(reply)
-        # 1. check_for_errors
-        k, v = impl.outcome(J.check_for_errors, json.loads(text))
-        m = monitor(reply, k, v, "check_for_errors")
-        if m:
-            ctx.violate({"reply": reply, "via": "check_for_errors"}, m, key="check_for_errors:" + m[:60])
-        lines.append("cfe " + enc)
-        impl_out.append(impl.canon_outcome(k, v))
-        # 2. through a real ServerProxy call
-        tr = impl.LoopTransport(lambda body, t=text: t)
-        proxy = J.ServerProxy("http://localhost/", transport=tr, config=cfg)
-        k2, v2 = impl.outcome(proxy.some.method, 1, 2)
-        m = monitor(reply, k2, v2, "ServerProxy call")
-        if m:
-            ctx.violate({"reply": reply, "via": "ServerProxy"}, m, key="proxy:" + m[:60])
-        lines.append("proxy " + enc)
-        impl_out.append(impl.canon_outcome(k2, v2))
-        # 3. at a batch position of a MultiCall
+        n0 = len(impl_out)
+        # 1/2/5. check_for_errors, proxy call, notification call
+        k, v = drive_reply(ctx, off, reply, text, enc, lines, impl_out, True)
+        cfe_line = impl_out[n0]
+        use_on = plain(reply) and (ctx.thorough or idx % 2 == 0)
+        if use_on:
+            jc_on += 1
+            drive_reply(ctx, cls[1], reply, text, enc, lines, impl_out, False)
         if isinstance(reply, dict):
+            if in_domain(reply) and "error" in reply and reply["error"] is not None and not reply["error"]:
+                falsy_nonnull += 1
+            # 3. at a batch position of a MultiCall, read in every way
             pos = ctx.rng.randint(0, 2)
             others = [{"jsonrpc": "2.0", "id": i, "result": i} for i in range(3)]
             batch = others[:pos] + [reply] + others[pos:]
-            btext = json.dumps(batch)
-            tr = impl.LoopTransport(lambda body, t=btext: t)
-            proxy = J.ServerProxy("http://localhost/", transport=tr, config=cfg)
-            mc = J.MultiCall(proxy, config=cfg)
-            for _i in range(len(batch)):
-                mc.m()
-            results = mc()
-            k3, v3 = impl.outcome(lambda: results[pos])
-            m = monitor(reply, k3, v3, "MultiCall[%d]" % pos)
-            if m:
-                ctx.violate({"reply": reply, "via": "MultiCall", "position": pos}, m, key="multicall:" + m[:60])
-            lines.append("mcget %d %s" % (pos, pyval.enc(batch)))
-            impl_out.append(impl.canon_outcome(k3, v3))
-        # 4. the same object as the server's answer to a WHOLE batch (e.g. its parse error)
-        if isinstance(reply, dict):
-            tr = impl.LoopTransport(lambda body, t=text: t)
-            proxy = J.ServerProxy("http://localhost/", transport=tr, config=cfg)
-            mc = J.MultiCall(proxy, config=cfg)
+            drive_batch(ctx, off, batch, lines, impl_out, positions=[pos])
+            # 3b. mixed with other drawn replies: several error entries, results after errors
+            if ctx.thorough or idx % 3 == 0:
+                nb = ctx.rng.randint(1, 4)
+                mixed = [ctx.rng.choice(pool) for _ in range(nb)]
+                mixed.insert(ctx.rng.randint(0, nb), reply)
+                cl = cls[1] if (use_on and all(plain(r) for r in mixed) and ctx.rng.random() < 0.5) else off
+                drive_batch(ctx, cl, mixed, lines, impl_out)
+            # 4. the same object as the server's answer to a WHOLE batch (e.g. its parse error)
+            mc = J.MultiCall(off.proxy(text), config=off.cfg)
             mc.m()
             mc.n()
             k4, v4 = impl.outcome(lambda: list(mc()))
-            if in_domain(reply) and "error" in reply and truthy(reply["error"]):
+            if in_domain(reply) and has_error(reply):
                 m = monitor(reply, k4, v4, "MultiCall (single object for the batch)")
                 if m:
                     ctx.violate({"reply": reply, "via": "MultiCall-batch-object"}, m, key="batchobject:" + m[:50])
@@ -256,40 +441,82 @@ def run(ctx):
         code = err.get("code") if isinstance(err, dict) else None
         cclass = ("none" if not isinstance(err, dict) or "code" not in err else
                   type(code).__name__ + (":in" if isinstance(code, (int, float)) and LO <= code <= HI else ":out"))
-        key = (kind, env, gen.shape(err), cclass, impl_out[-1].split(" ")[:2][-1]) if k == "err" else None
-        ctx.count(case_repr={"kind": kind, "reply": reply, "check_for_errors": impl_out[-3 if isinstance(reply, dict) else -2]},
+        key = (kind, env, gen.shape(err), cclass, cfe_line.split(" ")[:2][-1]) if k == "err" else None
+        ctx.count(case_repr={"kind": kind, "reply": reply, "check_for_errors": cfe_line},
                   nontrivial_key=key, kind="%s/%s/%s" % (kind, env, "raise" if k == "err" else "return"))
 
     outs = ctx.lean(lines)
     unmodelled = 0
+    per_component = {}
     for ln, mo, io in zip(lines, outs, impl_out):
-        if mo.startswith("err Unmodelled"):
+        comp = ln.split(" ", 1)[0]
+        if "err Unmodelled" in mo:
             unmodelled += 1
             continue
-        cm = impl.canon_model_line(mo)
-        if ln.startswith("mcrun ") and cm.startswith("ok ") and io.startswith("ok-len "):
+        per_component[comp] = per_component.get(comp, 0) + 1
+        cm = canon_model_iter(mo) if comp == "mciter" else impl.canon_model_line(mo)
+        if comp in ("mclist", "mcunpack") and cm.startswith("ok ") and io.startswith("ok "):
+            pass
+        if comp == "mcrun" and cm.startswith("ok ") and io.startswith("ok-len "):
             cm = "ok-len %d" % len(pyval.parse(cm[3:])[1])
-        elif ln.startswith("mcrun ") and io.startswith("err") and cm.startswith("ok "):
+        elif comp == "mcrun" and io.startswith("err") and cm.startswith("ok "):
             # iterating the single kept object raised in the result access (no "result" member etc.): the batch call
             # itself succeeded in the model; compare through the per-object component instead
             continue
         if cm != io:
-            ctx.disagree(ln, io, cm, component=ln.split(" ")[0])
+            ctx.disagree(ln, io, cm, component=comp)
     ctx.traces_validated += len(lines) - unmodelled
     ctx.extra["unmodelled_cases"] = unmodelled
+    ctx.extra["lines_per_component"] = per_component
+    ctx.extra["replies_under_use_jsonclass_proxy"] = jc_on
+    ctx.extra["falsy_non_null_error_replies_not_judged"] = falsy_nonnull
     ctx.assumptions.append("float(str) on the jsonrpc member is modelled for plain decimal literals only; other strings are declined by the model (counted as unmodelled_cases)")
+    ctx.assumptions.append("domain of C06: 1.0-/2.0-form envelopes (no jsonrpc member or one equal to 2.0); replies whose jsonrpc member is above 2.0, "
+                           "non-numeric or null raise NotImplementedError/ValueError/TypeError before the error member is read "
+                           "(listed in C06_full_statement, refuted as stated by C06_full_statement_false)")
+    ctx.assumptions.append("falsy non-null error values (0, False, \"\", [], {}) are neither 'non-empty' nor 'null or absent': the monitor "
+                           "demands nothing for them (the model, which follows the code, returns the result; correspondence still compared)")
+    ctx.assumptions.append("the use_jsonclass=True proxy is exercised with replies that contain no __jsonclass__ key (C15/C16 own bean loading)")
+
+
+def search(ctx):
+    """An obligation broke or model and implementation differ, and no monitor fired: one exhaustive pass (the systematic
+    product is seed-independent; the random part runs with its thorough budget) instead of three."""
+    run(ctx)
 
 
 def replay(payload):
-    J = impl.jsonrpclib.jsonrpc
+    cls = {c.tag: c for c in clients()}
     case = payload.get("case") or {}
-    reply = case.get("reply")
-    print("replaying reply %r via %s" % (reply, case.get("via")))
-    k, v = impl.outcome(J.check_for_errors, reply)
-    m = monitor(reply, k, v, "check_for_errors")
-    print("check_for_errors ->", k, repr(v))
-    if m:
-        print("VIOLATION reproduced:", m)
-        return 1
-    print("no violation through check_for_errors (see 'via' for the original path)")
-    return 0
+    cl = cls.get(case.get("config") or "jc-off", cls["jc-off"])
+    via = case.get("via")
+    rc = 0
+
+    class _Ctx(object):
+        def __init__(self):
+            self.hits = []
+
+        def violate(self, case, detail, key=None):
+            self.hits.append((case.get("via"), detail))
+
+    c = _Ctx()
+    if "batch" in case:
+        print("replaying array reply %r via %s [%s]" % (case["batch"], via, cl.tag))
+        drive_batch(c, cl, case["batch"], [], [])
+    else:
+        reply = case.get("reply")
+        print("replaying reply %r via %s [%s]" % (reply, via, cl.tag))
+        drive_reply(c, cl, reply, json.dumps(reply), pyval.enc(reply), [], [], True)
+        if isinstance(reply, dict) and via == "MultiCall-batch-object":
+            mc = cl.J.MultiCall(cl.proxy(json.dumps(reply)), config=cl.cfg)
+            mc.m()
+            k4, v4 = impl.outcome(lambda: list(mc()))
+            m = monitor(reply, k4, v4, "MultiCall (single object for the batch)")
+            if m:
+                c.hits.append((via, m))
+    for v, m in c.hits:
+        print("VIOLATION reproduced (%s): %s" % (v, m))
+        rc = 1
+    if not rc:
+        print("no violation reproduced")
+    return rc
